@@ -2787,3 +2787,90 @@ def _to_string_generic(ex, st, c, args, dty):
     if isinstance(v, Str):
         return v
     return fresh_obj("string", "String")
+
+
+# ---------------------------------------------------------------------------------------------
+# text -> number conversions (std `str::parse` for machine integers, num-bigint 0.4 `from_str_radix`).  Only the Ok/Err (Some/None)
+# outcome is modelled exactly (as a regular-language membership of the byte sequence); the numeric value is a fresh unknown, which is an
+# over-approximation that is sound for panic-freedom obligations.
+
+def _re_unit(ch):
+    return z3.Re(z3.Unit(z3.BitVecVal(ord(ch), 8)))
+
+
+def _re_set(chars):
+    rs = [_re_unit(c) for c in chars]
+    return rs[0] if len(rs) == 1 else z3.Union(*rs)
+
+
+_RE_DIGIT = _re_set("0123456789")
+_RE_SIGN = _re_set("+-")
+# num-bigint 0.4: BigInt::from_str_radix(s, 10) is Ok  <=>  s in [+-]? [0-9] [0-9_]*   (read off bigint/convert.rs + biguint/convert.rs)
+_RE_BIGINT10 = z3.Concat(z3.Option(_RE_SIGN), _RE_DIGIT, z3.Star(z3.Union(_RE_DIGIT, _re_unit("_"))))
+
+
+def _str_seq(ex, st, v):
+    v = deref(ex, st, v)
+    if isinstance(v, Str):
+        return v.s
+    if isinstance(v, Bytes):
+        return v.s
+    raise Unsupported(f"text->number conversion of {type(v).__name__}")
+
+
+def _big_parse_cases(ex, st, seq, some, none):
+    ok = z3.InRe(seq, _RE_BIGINT10)
+    return [(ok, some(BigI(z3.Int(fresh("parsed"))))), (z3.Not(ok), none)]
+
+
+@reg("BigInt::parse_bytes")
+def _bigint_parse_bytes(ex, st, c, args, dty):
+    r = z3.simplify(args[1].e) if isinstance(args[1], BV) else None
+    if r is None or not is_concrete(r) or r.as_long() != 10:
+        raise Unsupported("BigInt::parse_bytes with a radix other than the constant 10")
+    # bytes that are not UTF-8 are not in the regular language either (it is ASCII only): None
+    return _big_parse_cases(ex, st, _str_seq(ex, st, args[0]), lambda b: Adt("Option", "Some", (b,)), Adt("Option", "None", ()))
+
+
+@reg("<BigInt as FromStr>::from_str")
+def _bigint_from_str(ex, st, c, args, dty):
+    return _big_parse_cases(ex, st, _str_seq(ex, st, args[0]), lambda b: Adt("Result", "Ok", (b,)),
+                            Adt("Result", "Err", (Adt("ParseBigIntError", None, ()),)))
+
+
+@reg("<BigInt as Num>::from_str_radix")
+def _bigint_from_str_radix(ex, st, c, args, dty):
+    r = z3.simplify(args[1].e) if isinstance(args[1], BV) else None
+    if r is None or not is_concrete(r) or r.as_long() != 10:
+        raise Unsupported("BigInt::from_str_radix with a radix other than the constant 10")
+    return _bigint_from_str(ex, st, c, args, dty)
+
+
+_INT_T = {"usize": (64, False), "u64": (64, False), "isize": (64, True), "i64": (64, True), "u32": (32, False), "i32": (32, True),
+          "u8": (8, False), "i8": (8, True), "u16": (16, False), "i16": (16, True), "u128": (128, False), "i128": (128, True)}
+
+
+@reg("str::parse")
+def _str_parse(ex, st, c, args, dty):
+    t = c.targs[0] if c.targs else ""
+    if _type_head(t) == "BigInt":
+        return _bigint_from_str(ex, st, c, args, dty)
+    if t not in _INT_T:
+        raise Unsupported(f"str::parse::<{t}>")
+    bits, signed = _INT_T[t]
+    seq = _str_seq(ex, st, args[0])
+    # std: [+]?[0-9]+ for unsigned, [+-]?[0-9]+ for signed; Err(PosOverflow/NegOverflow) when the value does not fit.
+    sign = _RE_SIGN if signed else _re_unit("+")
+    shape = z3.Concat(z3.Option(sign), z3.Plus(_RE_DIGIT))
+    safe_digits = len(str(2 ** (bits - 1) - 1)) - 1  # this many digits always fit
+    over_digits = len(str(2 ** bits)) + 1  # this many digits with a non-zero lead never fit
+    fits = z3.InRe(seq, z3.Concat(z3.Option(sign), z3.Loop(_RE_DIGIT, 1, safe_digits)))
+    overflows = z3.InRe(seq, z3.Concat(z3.Option(sign), _re_set("123456789"), z3.Loop(_RE_DIGIT, over_digits - 1, 0)))
+    wf = z3.InRe(seq, shape)
+    lo, hi = (-(2 ** (bits - 1)), 2 ** (bits - 1) - 1) if signed else (0, 2 ** bits - 1)
+    x = z3.Int(fresh("parsed"))
+    okv = Adt("Result", "Ok", (BV(x, bits, signed),))
+    err = Adt("Result", "Err", (Adt("ParseIntError", None, ()),))
+    in_range = z3.And(x >= lo, x <= hi)
+    unsure = z3.And(wf, z3.Not(fits), z3.Not(overflows))  # between the two digit counts: either outcome (over-approximation)
+    return [(z3.And(z3.Or(fits, unsure), in_range), okv), (z3.Or(z3.Not(wf), overflows, unsure), err)]
